@@ -21,6 +21,7 @@ ASSUMPTIONS = ["truncation bounds are chosen strictly between samples (on-sample
 ANCHORS = {"weaver.py": [(64, 79), (273, 276), (510, 514), (580, 582), (753, 756), (778, 781), (807, 809), (835, 837),
                          (866, 869), (898, 901), (943, 948), (984, 988)]}
 FORMS_HARNESSES = "all"
+FORMS_SKIP = ("deep-narrow-histories",)
 FORMS_WIDTH = {"domain-histories": 7, "missing-last-sample-cut-off-first": 5}
 EXPLANATION = "exhaustive exploration of operation histories on the live object against a functional model"
 
@@ -321,7 +322,39 @@ def harnesses(tier, seed):
             if ctx.fresh:
                 ctx.fail("raised", case, {"exception": repr(e)}, {"exc": type(e).__name__})
 
-    hs = [{"name": "domain-histories", "body": body, "bound_text": "all histories to depth %d" % depth},
+    DEEP_OPS = [("append", False), ("shift_x", 1.0), ("shift_y", 2.0), ("scale_x", 2.0), ("scale_y", -1.0), ("normalize_x", 0.0, 1.0),
+                ("normalize_y", 0.0, 10.0), ("repeat", 2), ("truncate_by_value", "ratioA"), ("truncate_by_index", 1, None),
+                ("truncate_by_index", 0, -1)]
+    deep_depth = 4 if quick else 5
+
+    def deep_body(ctx):
+        """one operation per kind, deeper: working == reference == model in every state of depth 4.. (shallower states
+        are the subject of domain-histories)"""
+        ii = ctx.choose([1, 0], "init")
+        r = WO.Runner(WO.INITS[ii])
+        done = []
+        for d in range(deep_depth):
+            en = r.enabled(DEEP_OPS)
+            op = ctx.choose(en, "op%d" % d)
+            try:
+                r.apply(op)
+            except Exception as e:  # noqa
+                if ctx.fresh:
+                    case = {"kind": "history-c08", "init": ii, "ops": [list(o) for o in done + [op]], "tier": "light"}
+                    ctx.fail("raised", case, {"exception": repr(e)}, {"op": op[0], "exc": type(e).__name__})
+                return
+            ctx.call(1)
+            done.append(op)
+            if len(done) >= 4 and ctx.fresh:
+                case = {"kind": "history-c08", "init": ii, "ops": [list(o) for o in done], "tier": "light"}
+                for f in WO.tag(r.reference_tracks(), op, r.history):
+                    ctx.fail(f["clause"], case, f.get("detail"), f.get("key"))
+                ctx.case(1)
+                ctx.outcome(WO.values_only(WO.observables(r.wv)[:4]))
+
+    hs = [{"name": "deep-narrow-histories", "body": deep_body,
+           "bound_text": "all histories over %d operations (one per kind) to depth %d" % (len(DEEP_OPS), deep_depth)},
+          {"name": "domain-histories", "body": body, "bound_text": "all histories to depth %d" % depth},
           {"name": "missing-last-sample-cut-off-first", "body": nan_body, "bound_text": "truncate, then all histories of depth 2"}]
     if not quick:
         hs.append({"name": "merged-state-bfs", "run": (lambda: bfs_merged(8, 400000)),
